@@ -48,6 +48,14 @@ def run_workers(prop, tier, seed, nshards, watchdog_s, replay=None):
     work = os.path.join(VERIF, '.work', prop)
     shutil.rmtree(work, ignore_errors=True)
     os.makedirs(work, exist_ok=True)
+    # scratch directories that killed workers left on the other file system (older than three hours)
+    try:
+        for d in os.listdir('/dev/shm'):
+            p = os.path.join('/dev/shm', d)
+            if d.startswith('rv_tmp_') and time.time() - os.stat(p).st_mtime > 3 * 3600:
+                shutil.rmtree(p, ignore_errors=True)
+    except OSError:
+        pass
     procs = []
     renv = {}
     if replay:
